@@ -902,7 +902,7 @@ fn minimise_store(mut rp: StoreReplay) -> StoreReplay {
 pub fn run_c12(args: &Args) -> i32 {
     let t0 = std::time::Instant::now();
     let (n, fpc, exh) = match args.tier {
-        Tier::Quick => (args.cases.unwrap_or(600), 60, 2500),
+        Tier::Quick => (args.cases.unwrap_or(1500), 60, 2500),
         Tier::Thorough => (args.cases.unwrap_or(20000), 150, 6000),
     };
     let results = run_cases(n, args.threads, |r: &StoreOut| r.violation.is_some(), |i| store_case(args, i, fpc, exh));
